@@ -84,6 +84,8 @@ func main() {
 		params    multiFlag
 	)
 	flag.Var(&params, "D", "harness parameter name=value (repeatable)")
+	var extras multiFlag
+	flag.Var(&extras, "extra", "additional overlay: <pkg dir relative to repo>=<directory with .go files> (plain Go helpers, no prelude; repeatable)")
 	flag.Parse()
 	os.Setenv("PATH", "/opt/veriftools/go1.26.8/bin:"+os.Getenv("PATH"))
 	os.Setenv("GOTOOLCHAIN", "local")
@@ -122,6 +124,25 @@ func main() {
 					pkgName = strings.TrimSpace(strings.TrimPrefix(line, "package "))
 					break
 				}
+			}
+		}
+	}
+	for _, ex := range extras {
+		kv := strings.SplitN(ex, "=", 2)
+		if len(kv) != 2 {
+			fatal("bad -extra " + ex)
+		}
+		ents, err := os.ReadDir(kv[1])
+		if err != nil {
+			fatal(err.Error())
+		}
+		for _, e := range ents {
+			if strings.HasSuffix(e.Name(), ".go") {
+				b, err := os.ReadFile(filepath.Join(kv[1], e.Name()))
+				if err != nil {
+					fatal(err.Error())
+				}
+				overlay[filepath.Join(*repo, kv[0], e.Name())] = b
 			}
 		}
 	}
